@@ -8,9 +8,8 @@ import Mathlib.Tactic.Linarith
 Theorems about the date-handling layer (`Model/DateUse.lean`): every quantity that the
 date-consuming operations derive from a `Date` — time since epoch, the UTC calendar reading handed
 to SGP4 and written into a TLE, ordering/equality/hash, the interpolation abscissa — is a function
-of the instant alone, for every instant, every pair of labels and every offset table.  The one
-derived quantity that is *not* (the EOP day) has a counter-witness below; it is the known finding
-`C04-eop-day-by-label-scale`.
+of the instant alone, for every instant, every pair of labels and every offset table.  The EOP day was the one derived quantity that was not (finding `C04-eop-day-by-label-scale`, fixed by
+fc514f7: the record is now looked up by UTC day); the regression witness is kept below.
 
 That each public operation uses its dates only through these quantities is established by the
 oracle sweep of harness/props/C04.py on the real API (6 labels × 6 labels per operation), not here.
@@ -61,10 +60,17 @@ theorem compare_label_independent (a b : Date) (l₁ l₂ : Nat) :
 theorem add_sub (d : Date) (δ : Int) : sub (add off d δ) d = δ := by
   simp only [add, sub, ofReading, reading]; ring
 
-/-- **Counter-witness** (known finding): the EOP day *does* depend on the label. With TAI − UTC = 35 s,
-the instant 2014-08-03T23:59:50 UTC has UTC day 56872 but its TAI reading is already in day 56873. -/
-theorem eop_day_depends_on_label :
-    ∃ (off : Nat → Int) (d : Date) (l : Nat), eopDay off (changeScale off d l) ≠ eopDay off d := by
+/-- the Earth-orientation record attached to a date is chosen by the UTC day of the instant: label-free
+(true of the code since fix fc514f7) -/
+theorem eop_day_label_independent (utc : Nat) (d : Date) (l : Nat) :
+    eopDay off utc (changeScale off d l) = eopDay off utc d := by
+  simp only [eopDay, utcFields_label_independent]
+
+/-- **Regression witness**: the lookup by the day number of the date's own scale (the code before fc514f7) *does*
+depend on the label. With TAI − UTC = 35 s, the instant 2014-08-03T23:59:50 UTC has UTC day 56872 but its TAI
+reading is already in day 56873. -/
+theorem eop_day_own_scale_depends_on_label :
+    ∃ (off : Nat → Int) (d : Date) (l : Nat), eopDayOwnScale off (changeScale off d l) ≠ eopDayOwnScale off d := by
   refine ⟨fun l => if l = 0 then 0 else -35000000, ⟨56872 * 86400000000 + 86390000000 + 35000000, 1⟩, 0, ?_⟩
   decide
 
